@@ -216,8 +216,8 @@ class Engine:
         self.resolve_cache={}
         self.const_cache={}
         self.log_enabled=False
-        from . import models as _m, models_json as _mj, models_serde as _ms
-        _ms.register(self); _mj.register(self); _m.register_all(self)
+        from . import models as _m, models_json as _mj, models_serde as _ms, models_der as _md
+        _md.register(self); _ms.register(self); _mj.register(self); _m.register_all(self)
 
     # ---------------------------------------------------------------- registration
     def model(self,pattern,fn,name=None):
@@ -269,6 +269,12 @@ class Engine:
                 if m:
                     want=last_ident(m.group(1))
                     sel=[b for b in c if b.params and last_ident(b.params[0][1])==want]
+                    if len(sel)>1:
+                        def two(t):
+                            t=re.sub(r'<.*$','',t.strip().lstrip('&')); return '::'.join(t.split('::')[-2:])
+                        w2=two(m.group(1))
+                        sel2=[b for b in sel if two(b.params[0][1])==w2 or two(b.params[0][1]).endswith('::'+w2) or w2.endswith('::'+two(b.params[0][1]).split('::')[-1]) and two(b.params[0][1]).split('::')[0] in m.group(1)]
+                        if len(sel2)==1: return sel2[0]
                     if len(sel)==1: return sel[0]
                     if len(sel)==0: return None
                 raise Unsupported('ambiguous impl '+key)
@@ -511,6 +517,11 @@ class Engine:
             if not bs: raise Unsupported('promoted not found: '+key)
             return self.eval_const(run,bs[0])
         if s=='log::STATIC_MAX_LEVEL': return Agg('LevelFilter',[],5,'Trace')
+        m=re.match(r'^\{(alloc\d+): &',s)
+        if m:
+            from . import parse as _p
+            st=_p.ALLOC_STATICS.get(m.group(1))
+            if st: return Ref(Cell(Opaque('static:'+st.split('::')[-1])))
         if re.match(r'^[A-Za-z_][A-Za-z0-9_:<>\' ,]*$',s):
             key=strip_generics(s)
             last=key.split('::')[-1]
@@ -590,6 +601,7 @@ class Engine:
         if prev is not None:
             if 'serde_json' in parts and prev=='Value':
                 tab=self.enums['serde_json::Value']; return Agg('serde_json::Value',fields,tab.index(last),last)
+            if 'derp' in parts and prev=='Error': return Agg('derp::Error',fields,self.enums['derp::Error'].index(last),last)
             if prev in self.enums and last in self.enums[prev]:
                 return Agg(prev,fields,self.enums[prev].index(last),last)
         if prev is None and last not in self.src.structs:
